@@ -280,7 +280,7 @@ class _RawAdapter(io.RawIOBase):
 
 
 class Mount:
-    """context manager that routes /sim/ paths of builtins.open and os.path.isfile/exists to a SimFS"""
+    """context manager that routes /sim/ paths of builtins.open and os.path.isfile/exists/getsize to a SimFS"""
 
     def __init__(self, fs):
         self.fs = fs
@@ -310,15 +310,28 @@ class Mount:
                 return fs.exists(p)
             return real_exists(path)
 
+        self._getsize = os.path.getsize
+        real_getsize = self._getsize
+
+        def sim_getsize(path):
+            p = _as_sim_path(path)
+            if p is not None:
+                if not fs.exists(p):
+                    raise FileNotFoundError(p)
+                return len(fs.files[p])
+            return real_getsize(path)
+
         builtins.open = sim_open
         os.path.isfile = sim_isfile
         os.path.exists = sim_exists
+        os.path.getsize = sim_getsize
         return fs
 
     def __exit__(self, *a):
         builtins.open = self._open
         os.path.isfile = self._isfile
         os.path.exists = self._exists
+        os.path.getsize = self._getsize
         for h in self.fs.open_handles:
             h.closed = True
         return False
